@@ -275,10 +275,15 @@ func main() {
 		dh := kit.NewFamily(c, "dh-2048", evalDH)
 		params := kit.NewFamily(c, "dhparams", evalParams)
 		pq := kit.NewIsolatedFamily(c, "pq", workers, 1024, evalPQ)
+		// histories run one at a time per worker process: state the package under test might keep between calls is
+		// then a function of the history alone (plus finished histories), not of what other goroutines do meanwhile
+		hist := kit.NewIsolatedFamily(c, "dh-history", workers, 1024, evalHist)
+		phist := kit.NewFamily(c, "params-history", evalPHist)
 		if c.Replaying() {
 			return
 		}
 		defer pq.Close()
+		defer hist.Close()
 
 		if bad := refexchange.VerifyGroups() + refexchange.VerifyCandidates(); bad != "" {
 			fmt.Fprintln(os.Stderr, "C13: embedded group/candidate does not have its stated form:", bad)
@@ -301,9 +306,18 @@ func main() {
 			"(only 'out-of-range g_a/g_b never accepted'; counted trivial otherwise). "+
 			"pq: DecomposePQ on every product < 2^63 of two primes (p=q included) from the table {all primes < 200, primes around "+
 			"2^16, 2^31, 2^31.5 and 2^32, a few around 2^20..2^40} x random streams; oracle: returns (min, max). "+
+			"dh-history: sequences of CheckDH/CheckGP calls on living *big.Int objects A, B (overwritten in place by Set / SetBytes / in-place Add between "+
+			"calls) and fresh objects: accepted prime (telegram g=3, g=4; gen2 g=4) then each non-safe neighbour (p+-2,+6,+12,-18, bit 1024 / 2040 flipped, gen2+2, "+
+			"semiprime, composite 2q+1, (p-1)/2, p+2^2048; thorough also a prime with composite (p-1)/2) x 3 ways of storing; accepted prime then the same object with "+
+			"g in {1,2,5,6,7,8} via CheckDH and CheckGP; refused value then a good prime in the same object; CheckGP(good) then CheckDH(bad); other / fresh object after an "+
+			"accepted prime; two good primes through one object; 6 long histories (accepted prime + the whole step list, both orders); thorough: all depth-3 histories. "+
+			"params-history: every sequence of 1..2 (thorough 3, reduced alphabet) CheckDHParams calls on re-used objects overwritten in place, step alphabet = prime in "+
+			"{telegram, gen2} x g_a in 7 boundary values relative to the current / the other prime x g_b likewise or the same object as g_a or as the prime. "+
+			"Every call of a history has the oracle of the single-call families. "+
 			"distinct = distinct witnesses that are inside the stated space.", len(refexchange.Groups()))
 		c.Assume("math/big ProbablyPrime/Exp/GCD as the reference for primality and Euler's criterion; embedded groups re-verified at start; " +
-			"DecomposePQ runs in worker subprocesses with a 180 s cap per input (a cap hit is reported as class hang)")
+			"DecomposePQ runs in worker subprocesses with a 180 s cap per input (a cap hit is reported as class hang); dh-histories run in worker subprocesses, one " +
+			"history at a time per process (state left behind by finished histories of the same worker is part of the environment)")
 
 		// ---- gp-small
 		sieve := make([]bool, limit+1) // true = composite
@@ -359,6 +373,27 @@ func main() {
 		kit.Parallel(len(pcases), workers, func(i int) { params.Eval(pcases[i]) })
 
 		c.Set("phase_dhparams_s", time.Since(t0).Seconds())
+		// ---- histories on re-used objects
+		for _, w := range pHistCases(c.Thorough()) {
+			phist.Eval(w) // sequential on purpose
+		}
+		hcases := histCases(c.Thorough())
+		c.Set("dh_histories", int64(len(hcases)))
+		hdone := 0
+		var hmu sync.Mutex
+		kit.Parallel(len(hcases), workers, func(i int) {
+			if c.Expired() {
+				return
+			}
+			hist.Eval(hcases[i])
+			hmu.Lock()
+			hdone++
+			hmu.Unlock()
+		})
+		if hdone != len(hcases) {
+			c.NotExhaustive("time budget: %d of %d dh-histories evaluated", hdone, len(hcases))
+		}
+		c.Set("phase_history_s", time.Since(t0).Seconds())
 		// ---- pq
 		var table []uint64
 		table = append(table, primesBelow(200)...)
